@@ -217,3 +217,29 @@ example : (run {} [.writeFile "1.zap", .commit 1 ["1.zap"], .ack 1, .writeFile "
   decide
 
 end Bleve.Durable
+
+namespace Bleve.History
+
+/-- what the auxiliary-document monitor accepts, spelled out for one writer -/
+theorem auxOK_single (p a d : Nat) :
+    auxOK [p] [a] [d] = true ↔ (a = 0 ∨ a = p) ∧ (p ≤ d ∧ 0 < p → a = 0) := by
+  simp [auxOK]
+  intro _
+  constructor
+  · intro h h1 h2
+    rcases h with (h | h) | h
+    · omega
+    · omega
+    · exact h
+  · intro h
+    by_cases h1 : p ≤ d
+    · by_cases h2 : 0 < p
+      · exact Or.inr (h h1 h2)
+      · exact Or.inl (Or.inr (by omega))
+    · exact Or.inl (Or.inl (by omega))
+
+example : auxOK [7, 3] [7, 0] [6, 3] = true := by decide
+example : auxOK [7, 3] [7, 3] [6, 3] = false := by decide      -- the deletion after batch 3 was acknowledged, the document is back
+example : auxOK [7, 3] [6, 0] [0, 0] = false := by decide      -- a version from another batch
+
+end Bleve.History
